@@ -55,7 +55,7 @@ Local Notation d := (lc_delay lc).
 (* what an agenda entry due at t must satisfy *)
 Definition entry_ok (st : lstate) (t : Q) (e : aev) : Prop :=
   match e with
-  | AWireGetD x => exists s, sent_at st x s /\ (t <= s + d)%Q
+  | AWireGetD x => exists s, sent_at st x s /\ (t <= s + d)%Q /\ wd_entered (l_wd st) = s
   | AWireOutD x => exists s, sent_at st x s /\ (t == s + d)%Q
   | AWireGetA a p tm ct => sent_at st p tm /\ a = p + m /\ (ct == tm + d)%Q /\ (t <= tm + (2 # 1) * d)%Q
   | AWireOutA a p tm ct => sent_at st p tm /\ a = p + m /\ (ct == tm + d)%Q /\ (t == tm + (2 # 1) * d)%Q
@@ -94,7 +94,9 @@ Record LF (st : lstate) (ev : option aev) : Prop := {
   lf_acks : Forall (ack_ok st) (wa_items (l_wa st));
   (* the transmission log: every segment once, in order *)
   lf_log : exists nN : nat, map dl_id (rev (l_d1 st)) = seg_ids m 0 nN /\ Z.of_nat nN * m = next_seq (l_snd st) /\ l_n1 st = nN;
-  lf_dom : forall y s, sent_at st y s -> y < next_seq (l_snd st)
+  lf_dom : forall y s, sent_at st y s -> y < next_seq (l_snd st);
+  (* every queued entry carries the send instant of its segment (nothing is sent twice) *)
+  lf_stamps : Forall2 (fun x s => sent_at st x s) (wd_items (l_wd st)) (wd_stamps (l_wd st))
 }.
 
 End LF.
@@ -199,10 +201,10 @@ Lemma Hd_nonneg : (0 <= d)%Q.
 Proof. apply Hok2. Qed.
 
 Lemma entry_ok_now st st' t e :
-  l_pkt st' = l_pkt st -> l_snd st' = l_snd st -> (l_now st <= l_now st')%Q ->
+  l_pkt st' = l_pkt st -> l_snd st' = l_snd st -> wd_entered (l_wd st') = wd_entered (l_wd st) -> (l_now st <= l_now st')%Q ->
   entry_ok lc st t e -> entry_ok lc st' t e.
 Proof.
-  intros Hp Hs Hn. unfold entry_ok, sent_at. rewrite Hp, Hs. destruct e; auto; intros H; lra.
+  intros Hp Hs Hw Hn. unfold entry_ok, sent_at. rewrite Hp, Hs, Hw. destruct e; auto; intros H; lra.
 Qed.
 
 Lemma evl_In_agenda st e : In e (evl st None) <-> exists a, In a (l_agenda st) /\ ae_ev a = e.
@@ -257,7 +259,7 @@ Proof.
       { destruct (lf_Dp _ _ _ L) as (nD' & EDp' & _). rewrite EDp' in Hx. apply seg_ids_ge in Hx; [lia|exact Hm]. }
       assert (Hs0 : exists s0, sent_at st x0 s0 /\ (ae_time a' <= s0 + d)%Q).
       { destruct (ae_ev a'); cbn [dataid_of] in Hd0; try discriminate; injection Hd0 as ->; cbn [entry_ok] in Ok;
-          destruct Ok as (s0 & S0 & T0); exists s0; split; auto; lra. }
+          [destruct Ok as (s0 & S0 & T0 & _)|destruct Ok as (s0 & S0 & T0)]; exists s0; split; auto; lra. }
       destruct Hs0 as (s0 & S0 & T0).
       assert (s0 <= s)%Q by (apply (lf_order _ _ _ L x0 x s0 s); auto; fold m in ELA; nia).
       lra. }
@@ -294,7 +296,7 @@ Proof.
       assert (s0 <= s)%Q by (apply (lf_order _ _ _ L x0 x s0 s); auto; lia).
       lra. }
   split.
-  - destruct L as [L0 L1 L2 L3 L4 L5 L6 L7 L8 L9 L10 L11 L12 L13 L14 L15 L16 L17 L18 L19].
+  - destruct L as [L0 L1 L2 L3 L4 L5 L6 L7 L8 L9 L10 L11 L12 L13 L14 L15 L16 L17 L18 L19 L20].
     constructor; unfold Dp, Ap, heldD, heldA, cnt in *; rewrite ?Eevl; unfold popped; lproj; auto.
     + apply Forall_forall. intros a' Hin. eapply (entry_ok_now st); try reflexivity; [exact Hna'|].
       apply Hent. rewrite E. right. exact Hin.
@@ -368,23 +370,27 @@ Record same_rest (st st' : lstate) : Prop := {
   sr_wa : l_wa st' = l_wa st; sr_n2 : l_n2 st' = l_n2 st
 }.
 
+(* the data wire's store after the segments [ids] entered it at [t] *)
+Definition wd_app (w : wireD) (ids : list Z) (t : Q) : wireD :=
+  mkwd (wd_items w ++ ids) (wd_stamps w ++ map (fun _ => t) ids) (wd_entered w) (wd_waiting w).
+
 Lemma do_outs_exact : forall o st,
   let st' := do_outs lc st o in
   same_rest st st' /\
   AddsT (l_agenda st) (l_agenda st') (out_news (l_now st) o) /\
-  l_wd st' = mkwd (wd_items (l_wd st) ++ tx_ids o) (wd_waiting (l_wd st)) /\
+  l_wd st' = wd_app (l_wd st) (tx_ids o) (l_now st) /\
   l_pkt st' = pkt_sets (l_now st) (tx_ids o) (l_pkt st) /\
   l_n1 st' = (l_n1 st + length (tx_ids o))%nat /\
   map dl_id (rev (l_d1 st')) = map dl_id (rev (l_d1 st)) ++ tx_ids o.
 Proof.
   induction o as [|x o IH]; intros st; cbn [do_outs tx_ids out_news flat_map pkt_sets].
-  - split; [constructor; reflexivity|]. split; [constructor|]. rewrite !app_nil_r, Nat.add_0_r.
+  - split; [constructor; reflexivity|]. split; [constructor|]. unfold wd_app. cbn [map]. rewrite !app_nil_r, Nat.add_0_r.
     split; [destruct (l_wd st); reflexivity|]. auto.
   - destruct x as [id z|id r|id|id r].
     + (* Tx *)
       set (st1 := tx_data lc st id).
       assert (T : same_rest st st1 /\ AddsT (l_agenda st) (l_agenda st1) [(nq (l_now st), AWirePutCb false)] /\
-                  l_wd st1 = mkwd (wd_items (l_wd st) ++ [id]) (wd_waiting (l_wd st)) /\
+                  l_wd st1 = wd_app (l_wd st) [id] (l_now st) /\
                   l_pkt st1 = pkt_set id (l_now st, l_now st) (l_pkt st) /\ l_n1 st1 = S (l_n1 st) /\
                   l_d1 st1 = mkdlog (l_n1 st) id 0 (l_now st) false :: l_d1 st).
       { subst st1. unfold tx_data. rewrite Hnd. cbn [existsb]. lproj.
@@ -394,7 +400,7 @@ Proof.
       destruct (IH st1) as (S2 & A2 & W2 & P2 & N2 & D2). fold (do_outs lc st1 o) in *.
       destruct S1 as [a1 a2 a3 a4 a5], S2 as [b1 b2 b3 b4 b5]. rewrite a1 in *.
       split; [constructor; congruence|]. split; [eapply (AddsT_trans _ _ _ A2 _ _ A1)|].
-      split; [rewrite W2, W1; cbn [wd_items wd_waiting]; rewrite <- app_assoc; reflexivity|].
+      split; [rewrite W2, W1; unfold wd_app; cbn [wd_items wd_stamps wd_entered wd_waiting map]; rewrite <- !app_assoc; reflexivity|].
       split; [rewrite P2, P1; reflexivity|]. unfold tx_ids in *. split; [rewrite N2, N1; cbn [length app]; lia|].
       rewrite D2, D1. cbn [rev]. rewrite map_app. cbn [map dl_id app]. rewrite <- app_assoc. reflexivity.
     + set (st1 := sched st (l_now st) 0 (ATimerInit id)).
@@ -432,25 +438,37 @@ Lemma LF_eq st st' ev : lf_eq st st' -> LF lc st ev -> LF lc st' ev.
 Proof.
   intros (E1 & E2 & E3 & E4 & E5 & E6 & E7 & E8 & E9) L.
   assert (Ev : forall ev0, evl st' ev0 = evl st ev0) by (intros; unfold evl; rewrite E7; reflexivity).
-  destruct L as [L0 L1 L2 L3 L4 L5 L6 L7 L8 L9 L10 L11 L12 L13 L14 L15 L16 L17 L18 L19].
+  destruct L as [L0 L1 L2 L3 L4 L5 L6 L7 L8 L9 L10 L11 L12 L13 L14 L15 L16 L17 L18 L19 L20].
   constructor; unfold Dp, Ap, heldD, heldA, cnt, entry_ok, ack_ok, sent_at in *;
     rewrite ?Ev, ?E1, ?E2, ?E3, ?E4, ?E5, ?E6, ?E7, ?E8, ?E9; auto.
 Qed.
 
 Lemma entry_ok_ext st st' t e :
-  l_pkt st' = l_pkt st -> l_snd st' = l_snd st -> l_now st' = l_now st -> entry_ok lc st t e -> entry_ok lc st' t e.
-Proof. intros A B C. apply entry_ok_now; auto. rewrite C. apply Qle_refl. Qed.
+  l_pkt st' = l_pkt st -> l_snd st' = l_snd st -> wd_entered (l_wd st') = wd_entered (l_wd st) -> l_now st' = l_now st ->
+  entry_ok lc st t e -> entry_ok lc st' t e.
+Proof. intros A B W C. apply entry_ok_now; auto. rewrite C. apply Qle_refl. Qed.
+
+(* an entry that is not a granted data packet does not read the wire's local variable *)
+Lemma entry_ok_noget st st' t e :
+  l_pkt st' = l_pkt st -> l_snd st' = l_snd st -> l_now st' = l_now st -> is_holdD e = false \/ (exists x, e = AWireOutD x) ->
+  entry_ok lc st t e -> entry_ok lc st' t e.
+Proof.
+  intros A B C Hh. unfold entry_ok, sent_at. rewrite A, B, C. destruct e; auto. destruct Hh as [Hh|(x & Hx)]; discriminate.
+Qed.
 
 Lemma Forall_entry_ext st st' l :
-  l_pkt st' = l_pkt st -> l_snd st' = l_snd st -> l_now st' = l_now st ->
+  l_pkt st' = l_pkt st -> l_snd st' = l_snd st -> wd_entered (l_wd st') = wd_entered (l_wd st) -> l_now st' = l_now st ->
   Forall (fun a => entry_ok lc st (ae_time a) (ae_ev a)) l -> Forall (fun a => entry_ok lc st' (ae_time a) (ae_ev a)) l.
-Proof. intros A B C. apply Forall_impl. intros a. apply entry_ok_ext; auto. Qed.
+Proof. intros A B W C. apply Forall_impl. intros a. apply entry_ok_ext; auto. Qed.
 
 Lemma Forall_insert (P : aentry -> Prop) e l : P e -> Forall P l -> Forall P (ainsert e l).
 Proof.
   intros He Hl. apply Forall_forall. intros a Ha. apply ainsert_In in Ha as [->|Ha]; [exact He|].
   rewrite Forall_forall in Hl. auto.
 Qed.
+
+Lemma sent_at_fun st x s s' : sent_at st x s -> sent_at st x s' -> s = s'.
+Proof. unfold sent_at. intros A B. rewrite A in B. injection B as <-. reflexivity. Qed.
 
 (* the data wire's process asks its store for the next packet *)
 Lemma wd_get_LF st ev :
@@ -461,7 +479,7 @@ Proof.
   assert (Hd : dids ev = [] /\ apids ev = [] /\ is_holdD ev = false /\ is_holdA ev = false /\ is_initA ev = false /\ is_putA ev = false)
     by (destruct Hev as [->|[-> _]]; repeat split).
   destruct Hd as (Hd1 & Hd2 & Hd3 & Hd4 & Hd5 & Hd6).
-  destruct L as [L0 L1 L2 L3 L4 L5 L6 L7 L8 L9 L10 L11 L12 L13 L14 L15 L16 L17 L18 L19].
+  destruct L as [L0 L1 L2 L3 L4 L5 L6 L7 L8 L9 L10 L11 L12 L13 L14 L15 L16 L17 L18 L19 L20].
   rewrite !cnt_some in *. rewrite Hd3 in L12. rewrite Hd4, Hd5 in L13. rewrite Hd4 in L15. rewrite Hd5, Hd6 in L15. rewrite Hd3 in L14.
   cbn [b2n Nat.add] in *.
   assert (Hc : cnt is_holdD st None = O /\ cnt is_initD st None = O).
@@ -475,8 +493,10 @@ Proof.
     intros _ Hne. contradiction.
   - (* hand the first queued packet to the process: its StoreGet event *)
     assert (Hx : exists s, sent_at st x s /\ (l_now st <= s + d)%Q) by (apply L9; left; reflexivity).
-    set (st1 := set_wd st (mkwd rest false)).
+    inversion L20 as [|? s0 ? srest Hs0 Hrest Ei Es]; subst.
+    set (st1 := set_wd st (mkwd rest srest s0 false)).
     assert (Ev1 : forall ev0, evl st1 ev0 = evl st ev0) by reflexivity.
+    cbn [hd tl].
     constructor; lproj; auto.
     + unfold Dp. unfold heldD. rewrite (proj_sched_single dids st1); [|rewrite Ev1; exact HhD]. cbn [dids dataid_of]. lproj. exact L7.
     + unfold Ap, heldA. rewrite (proj_sched_nil apids st1) by reflexivity. rewrite Ev1. lproj. exact L8.
@@ -489,12 +509,14 @@ Proof.
     + rewrite cnt_sched_none. cbn [is_holdD dataid_of b2n]. discriminate.
     + rewrite !cnt_sched_none. unfold cnt. rewrite !Ev1. fold (cnt is_holdA st None) (cnt is_initA st None) (cnt is_putA st None).
       cbn [is_holdA ackno_of is_putA is_initA b2n Nat.add]. exact L15.
-    + apply Forall_insert; [cbn [ae_time ae_ev entry_ok]|exact L16].
-      destruct Hx as (s & Hs & Hle). exists s. split; [exact Hs|]. rewrite nq_eq. exact Hle.
+    + apply Forall_insert; [cbn [ae_time ae_ev entry_ok]|].
+      * destruct Hx as (s & Hs & Hle). exists s. split; [exact Hs|]. split; [rewrite nq_eq; exact Hle|]. lproj.
+        eapply sent_at_fun; eauto.
+      * apply Forall_forall. intros a0 Ha0. rewrite Forall_forall in L16.
+        apply (entry_ok_noget st); try reflexivity; [|apply L16, Ha0]. left.
+        apply (cnt_zero_forall is_holdD st None Hc1). unfold evl. cbn [app]. apply in_map. exact Ha0.
 Qed.
 
-Lemma sent_at_fun st x s s' : sent_at st x s -> sent_at st x s' -> s = s'.
-Proof. unfold sent_at. intros A B. rewrite A in B. injection B as <-. reflexivity. Qed.
 
 Lemma wa_get_LF st ev :
   (ev = AWireInit true \/ (ev = AWirePutCb true /\ wa_waiting (l_wa st) = true)) ->
@@ -504,7 +526,7 @@ Proof.
   assert (Hd : dids ev = [] /\ apids ev = [] /\ is_holdD ev = false /\ is_holdA ev = false /\ is_initD ev = false /\ is_putD ev = false)
     by (destruct Hev as [->|[-> _]]; repeat split).
   destruct Hd as (Hd1 & Hd2 & Hd3 & Hd4 & Hd5 & Hd6).
-  destruct L as [L0 L1 L2 L3 L4 L5 L6 L7 L8 L9 L10 L11 L12 L13 L14 L15 L16 L17 L18 L19].
+  destruct L as [L0 L1 L2 L3 L4 L5 L6 L7 L8 L9 L10 L11 L12 L13 L14 L15 L16 L17 L18 L19 L20].
   rewrite !cnt_some in *. rewrite Hd3, Hd5 in L12. rewrite Hd4 in L13. rewrite Hd3, Hd5, Hd6 in L14. rewrite Hd4 in L15.
   cbn [b2n Nat.add] in *.
   assert (Hc : cnt is_holdA st None = O /\ cnt is_initA st None = O).
@@ -553,7 +575,7 @@ Proof.
                is_initA ev = false /\ is_putD ev = false /\ is_putA ev = false)
     by (destruct Hev as [->| ->]; repeat split).
   destruct Hd as (Hd1 & Hd2 & Hd3 & Hd4 & Hd5 & Hd6 & Hd7 & Hd8).
-  destruct L as [L0 L1 L2 L3 L4 L5 L6 L7 L8 L9 L10 L11 L12 L13 L14 L15 L16 L17 L18 L19].
+  destruct L as [L0 L1 L2 L3 L4 L5 L6 L7 L8 L9 L10 L11 L12 L13 L14 L15 L16 L17 L18 L19 L20].
   rewrite !cnt_some in *. rewrite Hd3, Hd5 in L12. rewrite Hd4, Hd6 in L13. rewrite Hd4, Hd6, Hd8 in L15. clear L14.
   cbn [b2n Nat.add] in *.
   assert (Hc : cnt is_holdD st None = O /\ cnt is_initD st None = O /\ wd_waiting (l_wd st) = false).
@@ -603,7 +625,7 @@ Proof.
   - intros _ _. rewrite !cnt_sched, !cnt_some. cbn [is_initD b2n]. lia.
   - intros _ _. rewrite !cnt_sched, !cnt_some. cbn [is_putA b2n]. lia.
   - rewrite P8. apply Forall_insert; [cbn [ae_time ae_ev entry_ok]; lproj; rewrite P1, nq_eq; apply Qle_refl|].
-    eapply Forall_entry_ext; [| | |exact L16]; lproj; auto.
+    eapply Forall_entry_ext; [| | | |exact L16]; lproj; auto. rewrite P5. reflexivity.
   - apply Forall_app. split; [eapply Forall_impl; [|exact L17]; intros r; unfold ack_ok, sent_at; lproj; rewrite P4; auto|].
     constructor; [|constructor].
     unfold ack_ok, sent_at. cbn [a_pid a_time a_no a_ct]. lproj. rewrite P4. split; [exact Hs|]. split; [lia|exact Hns].
@@ -618,7 +640,7 @@ Lemma sender_event_exact st e st' s' o :
   step (lc_fx lc) (lc_cfg lc) (l_snd st) e = Ok s' o -> sender_event lc st e = inl st' ->
   l_now st' = l_now st /\ l_snd st' = norm_sender s' /\ l_sink st' = l_sink st /\ l_wa st' = l_wa st /\
   AddsT (l_agenda st) (l_agenda st') (out_news (l_now st) o ++ extra_news (l_now st) (l_snd st) s' e) /\
-  l_wd st' = mkwd (wd_items (l_wd st) ++ tx_ids o) (wd_waiting (l_wd st)) /\
+  l_wd st' = wd_app (l_wd st) (tx_ids o) (l_now st) /\
   l_pkt st' = pkt_sets (l_now st) (tx_ids o) (l_pkt st) /\
   l_n1 st' = (l_n1 st + length (tx_ids o))%nat /\
   map dl_id (rev (l_d1 st')) = map dl_id (rev (l_d1 st)) ++ tx_ids o.
@@ -691,6 +713,9 @@ Qed.
 Lemma In_norm_timers id r t : In (id, r) (map (fun p : Z * Q => (fst p, nq (snd p))) t) -> exists r0, In (id, r0) t /\ r = nq r0.
 Proof. intros H. apply in_map_iff in H as ([i r0] & E & Hin). cbn [fst snd] in E. injection E as <- <-. eauto. Qed.
 
+Lemma Forall2_imp {A B : Type} (P R : A -> B -> Prop) la lb : (forall a b, P a b -> R a b) -> Forall2 P la lb -> Forall2 R la lb.
+Proof. intros H. induction 1; constructor; auto. Qed.
+
 (* a sender event that acknowledges nothing: it may send n >= 0 new segments (resumption) *)
 Lemma LF_send st ev st' s' n :
   dids ev = [] -> apids ev = [] -> is_holdD ev = false -> is_holdA ev = false -> is_initD ev = false -> is_initA ev = false ->
@@ -704,7 +729,7 @@ Lemma LF_send st ev st' s' n :
                                        exists id, snd x = ATimerInit id /\ In id (seg_ids m (next_seq (l_snd st)) n)) /\
                 (forall x, In x news -> (fst x == l_now st)%Q) /\
                 ((0 < n)%nat -> In (AWirePutCb false) (map snd news))) ->
-  l_wd st' = mkwd (wd_items (l_wd st) ++ seg_ids m (next_seq (l_snd st)) n) (wd_waiting (l_wd st)) ->
+  l_wd st' = wd_app (l_wd st) (seg_ids m (next_seq (l_snd st)) n) (l_now st) ->
   l_pkt st' = pkt_sets (l_now st) (seg_ids m (next_seq (l_snd st)) n) (l_pkt st) ->
   l_n1 st' = (l_n1 st + n)%nat ->
   map dl_id (rev (l_d1 st')) = map dl_id (rev (l_d1 st)) ++ seg_ids m (next_seq (l_snd st)) n ->
@@ -716,7 +741,7 @@ Lemma LF_send st ev st' s' n :
 Proof.
   intros Hd1 Hd2 Hd3 Hd4 Hd5 Hd6 Hd7 Hd8 Hple L Pn Ps Pk Pwa (news & HA & HQ & HK & HT & HP) Pwd Ppk Pn1 Pd1 Sla Sdup Srto Ssrtt Sns Stm.
   pose proof Hm_pos as Hm. pose proof Hd_nonneg as Hdn.
-  destruct L as [L0 L1 L2 L3 L4 L5 L6 L7 L8 L9 L10 L11 L12 L13 L14 L15 L16 L17 L18 L19].
+  destruct L as [L0 L1 L2 L3 L4 L5 L6 L7 L8 L9 L10 L11 L12 L13 L14 L15 L16 L17 L18 L19 L20].
   set (ids := seg_ids m (next_seq (l_snd st)) n) in *.
   rewrite !cnt_some in *. rewrite Hd3, Hd5 in L12. rewrite Hd4, Hd6 in L13. rewrite Hd3, Hd5, Hd7 in L14. rewrite Hd4, Hd6, Hd8 in L15.
   cbn [b2n Nat.add] in *. unfold Dp, Ap in *. rewrite heldD_some, Hd1 in *. rewrite heldA_some, Hd2 in *. cbn [app] in *.
@@ -745,10 +770,10 @@ Proof.
   - rewrite Stm. apply Forall_forall. intros p Hp. apply in_map_iff in Hp as (q & <- & Hq). cbn [snd]. rewrite nq_eq.
     apply in_app_or in Hq as [Hq|Hq]; [rewrite Forall_forall in L6; apply L6, Hq|].
     apply in_map_iff in Hq as (i & <- & _). cbn [snd]. exact L2.
-  - exists (nD + n)%nat. unfold Dp. rewrite (heldD_AddsT st st' None news HA HQd), Pwd. cbn [wd_items].
+  - exists (nD + n)%nat. unfold Dp. rewrite (heldD_AddsT st st' None news HA HQd), Pwd. unfold wd_app. cbn [wd_items].
     rewrite app_assoc, ED, seg_ids_app. rewrite EDn. fold ids. split; [reflexivity|]. lia.
   - exists nA. unfold Ap. rewrite (heldA_AddsT st st' None news HA HQa), Pwa. split; [exact EA|exact EAn].
-  - intros y Hy. unfold Dp in Hy. rewrite (heldD_AddsT st st' None news HA HQd), Pwd in Hy. cbn [wd_items] in Hy.
+  - intros y Hy. unfold Dp in Hy. rewrite (heldD_AddsT st st' None news HA HQd), Pwd in Hy. unfold wd_app in Hy. cbn [wd_items] in Hy.
     rewrite app_assoc in Hy. apply in_app_or in Hy as [Hy|Hy].
     + destruct (L9 y Hy) as (sy & A & B). exists sy. split; [apply Hold; exact A|exact B].
     + exists (l_now st). split; [apply Hnew; exact Hy|lra].
@@ -761,7 +786,7 @@ Proof.
     + eapply L11; eauto.
   - rewrite (Cq is_holdD), (Cq is_initD), Pwd; [exact L12| |]; intros e He; apply He.
   - rewrite (Cq is_holdA), (Cq is_initA); [exact L13| |]; intros e He; apply He.
-  - rewrite (Cq is_holdD), (Cq is_initD), Pwd; [| |]; try (intros e He; apply He). cbn [wd_items]. intros Hh Hne.
+  - rewrite (Cq is_holdD), (Cq is_initD), Pwd; [| |]; try (intros e He; apply He). unfold wd_app. cbn [wd_items]. intros Hh Hne.
     destruct n as [|n'].
     + cbn [seg_ids] in *. subst ids. rewrite app_nil_r in Hne. pose proof (L14 Hh Hne). pose proof (Cge is_putD). lia.
     + assert (Hp : In (AWirePutCb false) (map snd news)) by (apply HP; lia).
@@ -785,7 +810,7 @@ Proof.
         apply in_app_or in Hin as [Hin|Hin].
         -- destruct (Hr r0 Hin) as (s0 & A & B). exists s0. split; [apply Hold; exact A|rewrite nq_eq; exact B].
         -- apply in_map_iff in Hin as (i & E & Hi). injection E as -> _. apply Hnew_ge in Hi. lia.
-      * destruct Ha as (s0 & A & B). exists s0. split; [apply Hold; exact A|exact B].
+      * destruct Ha as (s0 & A & B & C). exists s0. split; [apply Hold; exact A|]. split; [exact B|]. rewrite Pwd. exact C.
       * destruct Ha as (s0 & A & B). exists s0. split; [apply Hold; exact A|exact B].
       * destruct Ha as (A & B). split; [apply Hold; exact A|exact B].
       * destruct Ha as (A & B). split; [apply Hold; exact A|exact B].
@@ -799,6 +824,10 @@ Proof.
     split; [reflexivity|]. split; [lia|]. rewrite Pn1, ENc. reflexivity.
   - intros y sy Hy. destruct (Hcases y sy Hy) as [[Hyi _]|[_ Hyo]]; [apply Hnew_ge in Hyi; lia|].
     pose proof (L19 y sy Hyo).  lia.
+  - rewrite Pwd. unfold wd_app. cbn [wd_items wd_stamps]. apply Forall2_app.
+    + eapply Forall2_imp; [|exact L20]. intros y sy. apply Hold.
+    + clear -Hnew. induction ids as [|y l IH]; cbn [map]; constructor; [apply Hnew; left; reflexivity|].
+      apply IH. intros z Hz. apply Hnew. right. exact Hz.
 Qed.
 
 Lemma seg_ids_len mm id n : length (seg_ids mm id n) = n.
@@ -918,7 +947,7 @@ Proof.
   assert (Hd : dids ev = [] /\ apids ev = [p] /\ is_holdD ev = false /\ is_holdA ev = true /\ is_initD ev = false /\
                is_initA ev = false /\ is_putD ev = false /\ is_putA ev = false) by (destruct Hev as [->| ->]; repeat split).
   destruct Hd as (Hd1 & Hd2 & Hd3 & Hd4 & Hd5 & Hd6 & Hd7 & Hd8).
-  destruct L0' as [L0 L1 L2 L3 L4 L5 L6 L7 L8 L9 L10 L11 L12 L13 L14 L15 L16 L17 L18 L19].
+  destruct L0' as [L0 L1 L2 L3 L4 L5 L6 L7 L8 L9 L10 L11 L12 L13 L14 L15 L16 L17 L18 L19 L20].
   rewrite Q2 in *. rewrite ?Q1 in *.
   rewrite !cnt_some in *. rewrite Hd3, Hd5 in L12. rewrite Hd4, Hd6 in L13. rewrite Hd3, Hd5, Hd7 in L14. clear L15.
   cbn [b2n Nat.add] in *.
@@ -939,7 +968,7 @@ Proof.
   destruct Nw as (_ & Sla & Sdu & Stm & _ & So & Ssr & Srv & Srt & _ & Spd).
   assert (Ea : a = A + m) by lia. rewrite Ea in Sla.
   unfold acked_ids, repaired in Stm, So; proj. rewrite Hids in Stm, So. rewrite Hfil in Stm.
-  rewrite So in *. cbn [map tx_ids flat_map out_news app] in *. rewrite app_nil_r in PW.
+  rewrite So in *. cbn [map tx_ids flat_map out_news app] in *. unfold wd_app in PW. cbn [map] in PW. rewrite !app_nil_r in PW.
   assert (Hsample : (sample == (2 # 1) * d)%Q) by (unfold sample; rewrite nq_eq; lra).
   assert (Hextra : extra_news (l_now st) (l_snd st) s' (EAck a p sample orc) = [(nq (l_now st), ASenderCb)]).
   { unfold extra_news. rewrite Spd, Swk. replace (pend (l_snd st) <? S (pend (l_snd st)))%nat with true by (symmetry; apply Nat.ltb_lt; lia).
@@ -983,8 +1012,8 @@ Proof.
     exact L14.
   - intros _ _. rewrite !cnt_some. cbn [is_initA b2n]. lia.
   - apply (AddsT_Forall (fun t e0 => entry_ok lc st' t e0) _ _ _ PA); [|repeat constructor].
-    eapply Forall_impl; [|exact L16]. intros a0 Ha0. unfold entry_ok, sent_at in *. rewrite P1, P2, PP. rewrite ?Q1, ?Q2 in Ha0.
-    cbn [next_seq timers norm_sender]. rewrite Sns, Stm.
+    eapply Forall_impl; [|exact L16]. intros a0 Ha0. unfold entry_ok, sent_at in *. rewrite P1, P2, PP, PW. rewrite ?Q1, ?Q2 in Ha0.
+    cbn [next_seq timers norm_sender wd_entered]. rewrite Sns, Stm.
     destruct (ae_ev a0) as [| |id|id|w|w|x|x|ak pp tm' ct'|ak pp tm' ct']; auto.
     + destruct Ha0 as [Hlt Hr]. split; [exact Hlt|]. intros r Hin. apply In_norm_timers in Hin as (r1 & Hin & ->).
       apply (Hr r1). rewrite Htm. right. exact Hin.
@@ -993,6 +1022,7 @@ Proof.
   - eapply Forall_impl; [|exact L17]. intros r (B1 & B2 & B3). split; [apply Esame; exact B1|]. split; assumption.
   - destruct L18 as (nN & EN & ENn & ENc). exists nN. rewrite PD, app_nil_r, PN. cbn [length]. rewrite Nat.add_0_r. auto.
   - intros y sy Hy. apply Esame in Hy. eapply L19; eauto.
+  - rewrite PW. cbn [wd_items wd_stamps]. eapply Forall2_imp; [|exact L20]. intros y sy Hy. apply Esame. exact Hy.
 Qed.
 
 (* ---- the remaining agenda entries ---- *)
@@ -1002,7 +1032,7 @@ Lemma LF_drop st e :
   LF lc st (Some e) -> LF lc st None.
 Proof.
   intros Hd1 Hd2 Hd3 Hd4 Hd5 Hd6 Hd7 Hd8 L.
-  destruct L as [L0 L1 L2 L3 L4 L5 L6 L7 L8 L9 L10 L11 L12 L13 L14 L15 L16 L17 L18 L19].
+  destruct L as [L0 L1 L2 L3 L4 L5 L6 L7 L8 L9 L10 L11 L12 L13 L14 L15 L16 L17 L18 L19 L20].
   rewrite !cnt_some in *. rewrite Hd3, Hd5 in L12. rewrite Hd4, Hd6 in L13. rewrite Hd3, Hd5 in L14. rewrite Hd4, Hd6 in L15.
   cbn [b2n Nat.add] in *. unfold Dp, Ap in *. rewrite heldD_some, Hd1 in *. rewrite heldA_some, Hd2 in *. cbn [app] in *.
   constructor; auto.
@@ -1017,7 +1047,7 @@ Lemma LF_sched_quiet st t p e :
   quiet e -> entry_ok lc st (nq t) e -> LF lc st None -> LF lc (sched st t p e) None.
 Proof.
   intros (Q1 & Q2 & Q3 & Q4 & Q5 & Q6 & Q7) He L.
-  destruct L as [L0 L1 L2 L3 L4 L5 L6 L7 L8 L9 L10 L11 L12 L13 L14 L15 L16 L17 L18 L19].
+  destruct L as [L0 L1 L2 L3 L4 L5 L6 L7 L8 L9 L10 L11 L12 L13 L14 L15 L16 L17 L18 L19 L20].
   constructor; lproj; auto; unfold Dp, Ap, heldD, heldA in *; rewrite ?(proj_sched_nil dids st) by exact Q1;
     rewrite ?(proj_sched_nil apids st) by exact Q2; rewrite ?cnt_sched_none, ?Q3, ?Q4, ?Q5, ?Q6, ?Q7; cbn [b2n Nat.add]; lproj; auto.
   - intros Hh Hne. specialize (L14 Hh Hne). lia.
@@ -1038,7 +1068,7 @@ Lemma LF_move_D st x s :
   sent_at st x s -> LF lc st (Some (AWireGetD x)) ->
   LF lc (sched st (l_now st + (d - (l_now st - s)))%Q 1 (AWireOutD x)) None.
 Proof.
-  intros Hs L. destruct L as [L0 L1 L2 L3 L4 L5 L6 L7 L8 L9 L10 L11 L12 L13 L14 L15 L16 L17 L18 L19].
+  intros Hs L. destruct L as [L0 L1 L2 L3 L4 L5 L6 L7 L8 L9 L10 L11 L12 L13 L14 L15 L16 L17 L18 L19 L20].
   rewrite !cnt_some in *. cbn [is_holdD is_initD is_holdA is_initA is_putD is_putA dataid_of ackno_of b2n Nat.add] in *.
   assert (Hc : cnt is_holdD st None = O) by lia.
   assert (HhD : heldD st None = []) by (apply heldD_nil_cnt; exact Hc).
@@ -1059,7 +1089,7 @@ Lemma LF_move_A st a p tm ct :
   (ct == tm + d)%Q -> sent_at st p tm -> a = p + m -> LF lc st (Some (AWireGetA a p tm ct)) ->
   LF lc (sched st (l_now st + (d - (l_now st - ct)))%Q 1 (AWireOutA a p tm ct)) None.
 Proof.
-  intros Hct Hs Ha L. destruct L as [L0 L1 L2 L3 L4 L5 L6 L7 L8 L9 L10 L11 L12 L13 L14 L15 L16 L17 L18 L19].
+  intros Hct Hs Ha L. destruct L as [L0 L1 L2 L3 L4 L5 L6 L7 L8 L9 L10 L11 L12 L13 L14 L15 L16 L17 L18 L19 L20].
   rewrite !cnt_some in *. cbn [is_holdD is_initD is_holdA is_initA is_putD is_putA dataid_of ackno_of b2n Nat.add] in *.
   assert (Hc : cnt is_holdA st None = O) by lia.
   assert (HhA : heldA st None = []) by (apply heldA_nil_cnt; exact Hc).
@@ -1125,7 +1155,7 @@ Proof.
     + destruct (wd_waiting (l_wd st)) eqn:Ew; injection H as <-.
       * apply (wd_get_LF st (AWirePutCb false)); auto.
       * eapply LF_drop; [..|exact L]; auto.
-  - destruct He as (s & Hs & Hle). pose proof Hs as Hs'. unfold sent_at in Hs'. rewrite Hs' in H.
+  - destruct He as (s & Hs & Hle & Hent). pose proof Hs as Hs'. unfold sent_at in Hs'. rewrite Hs', Hent in H.
     destruct (Qltb (l_now st - s) d) eqn:Eq.
     + injection H as <-. apply LF_move_D; auto.
     + apply Qltb_false in Eq.
@@ -1186,6 +1216,7 @@ Proof.
   - constructor.
   - exists O. repeat split.
   - intros y s H. discriminate.
+  - constructor.
 Qed.
 
 Lemma reach_LF st : lreach lc (linit cw ss rtt0 orc) st -> LF lc st None.
